@@ -86,6 +86,10 @@ func TestDiff(t *testing.T) {
 		c := px.FromGenerated(g)
 		// The reference model is used only to classify and to keep known-finding triggers out.
 		tr, ok := px.Model(g)
+		if !ok && px.TooBig(tr) {
+			pk.Discard("unbounded-growth")
+			return
+		}
 		if ok {
 			if tr.Feat["hazard:slot-operand"] > 0 && pk.GateOpen("slot-operand") {
 				pk.Gate("slot-operand")
